@@ -14,6 +14,11 @@ PROP = {
         "GunYu.Props.C15.lost_resign_only_own",
         "GunYu.Props.C15.expiry_bound",
         "GunYu.Props.C15.expiry_bound_campaign",
+        "GunYu.Props.C15.holder_until_deadline",
+        "GunYu.Props.C15.takeover_possible",
+        "GunYu.Props.C15.ticker_failed_renewal_stops_leader",
+        "GunYu.Props.C15.election_id_configured",
+        "GunYu.Props.C15.distinct_addresses_distinct_ids",
         "GunYu.Props.C15.renew_le_third",
         "GunYu.Props.C15.lease_bounds",
         "GunYu.Props.C15.two_renewals_within_ttl",
@@ -30,12 +35,21 @@ PROP = {
         "lease_ticker_calls": ["IsClosed", "NewTicker", "GetSyncerConfig", "Stop", "Done", "Context", "Retry",
                                "clusterRenew", "Context", "Errorf", "clusterCampaign", "Context", "Errorf", "Infof",
                                "String", "Inc", "Close", "Join", "Close"],
+        # whole-function fingerprints (sha256/64 of the printed source): clusterTicker is executed by the harness,
+        # runCluster only up to its first campaign - any edit needs a conscious re-read against the assumptions
+        "lease_src_clusterTicker": "ee409cb22a03a230",
+        "lease_src_clusterRenew": "4d75433c42b33d37",
+        "lease_src_clusterCampaign": "a9bf5c284ce2821d",
+        "lease_src_runCluster": "7b5c0acc6d9663c0",
+        "lease_newelection_args": ["runWait.Context()", "key", "config.GetSyncerConfig().Server.ListenPeer"],
+        "lease_key_expr": "fmt.Sprintf(\"%s/%s/input-election/%s/\", config.NamespacePrefixKey, config.GetSyncerConfig().Cluster.GroupName, shardKey)",
         "lease_runcluster_order": ["sc.clusterCampaign", "sy.RunLeader", "elect.Leader", "sy.RunFollower",
                                    "sc.clusterTicker", "sy.Stop", "syncerWait.WgWait", "elect.Resign"],
     },
     "harness": [
         {"name": "C15", "pkg": "./pkg/cluster/", "test": "TestVerifC15", "timeout_quick": "10m", "timeout_thorough": "40m"},
         {"name": "C15fix", "pkg": "./config/", "test": "TestVerifC15Fix"},
+        {"name": "C15cmd", "pkg": "./cmd/", "test": "TestVerifC15Cmd", "timeout_quick": "10m", "timeout_thorough": "30m"},
     ],
     "driver": "drv_C15",
     "rule": "event lists: corpus; ALL lists of length<=4 (quick) / <=5 (thorough) over {campaign a, campaign b, renew a, resign a, resign b, "
@@ -49,10 +63,18 @@ PROP = {
             "redisElection.Campaign/Renew/Resign/Leader via NewRedisCluster + the real RESP client over loopback, live store contents and "
             "holder set, compared line by line with the Lean model (scripts = regenerated AST). lua ops: the double's Lua interpreter on the "
             "script text received at run time vs Lean evalLua on the regenerated AST, random stores/KEYS/ARGV incl. malformed ttl. "
-            "fix ops: real (*ClusterConfig).fix on a 32x32 grid of boundary durations + generated int64 durations vs Lean fixCfg. "
+            "fix ops: real (*ClusterConfig).fix on a 32x32 grid of boundary durations + generated int64 durations vs Lean fixCfg; cfgfix ops: whole "
+            "yaml configurations through InitSyncerConfig (cluster section with/without groupName, metaEtcd, lease/renew on a 13x13 grid, fields "
+            "omitted) - a surviving cluster section must be fixed. C15cmd: ident/contend ops: every pair of two hosts' server sections (listen x "
+            "listenPeer unset / host address / 0.0.0.0 / loopback / ':port') through the real InitSyncerConfig + the REAL (*SyncerCmd).runCluster "
+            "(key and election id derivation, first campaign) + real redis election against the lease-store double at one instant; ticker ops: "
+            "the REAL (*SyncerCmd).clusterTicker under testing/synctest with a scripted Election, ALL answer scripts of length<=4 (quick) / <=6 "
+            "(thorough) for both roles + random scripts/periods, calls with their virtual instants and when/how the syncer's wait is closed vs "
+            "Lean tickerRun. "
             "Monitors on the real code (independent of Lean): two-holders, success-over-foreign-lease, success-without-full-lease, "
             "failed-renew-not-reported, foreign-lease-changed, resign-released-foreign-lease, resign-keeps-own-lease, lost-call-not-an-error, "
-            "lease/renew/ttl-out-of-bounds. distinct_nontrivial = distinct event lists with >=2 instances and >=4 events (+ distinct kept "
+            "lease/renew/ttl-out-of-bounds, cluster-section-not-fixed, two-hosts-told-leader, failed-renewal-not-acted-on, "
+            "follower-win-not-acted-on, ticker-period. distinct_nontrivial = distinct event lists with >=2 instances and >=4 events (+ distinct kept "
             "lease/renew pairs)",
     "trusted": [
         "Redis semantics transcribed in Model/Lease.lean: GET / SET..EX / EXPIRE / DEL on a string key with expiry (live while now <= expiry, "
@@ -65,12 +87,24 @@ PROP = {
     "assumptions": [
         "script atomicity and ONE authoritative clock at the lease store (no claim about wall-clock skew between an instance and the store: "
         "'holder' is defined on the store's clock from the instant the script ran)",
-        "instance ids (server.listenPeer) are distinct; instances sharing an id are one contender for the store",
+        "instance ids are distinct. Reduced to: the peer addresses WRITTEN in the hosts' configurations (server.listenPeer, else server.listen) "
+        "are distinct (election_id_configured / distinct_addresses_distinct_ids; since fix 6c9227b a cluster-mode configuration without a "
+        "configured address, or with an unspecified one, is refused - before, every default-configured host contended as 127.0.0.1:18001 and "
+        "each was told leader). Two hosts explicitly given the same address remain one contender for the store",
         "an instance stops acting as leader before it calls Resign (runCluster: sy.Stop(); syncerWait.WgWait(); elect.Resign - statement "
         "order compared as source fact lease_runcluster_order); after an error from Campaign/Renew its belief is unchanged until the next "
         "answer or until its lease (counted from its last success) runs out",
-        "cmd/syncer.go (clusterTicker, runCluster) is not executed by the harness: ttl expression, ticker period and call skeleton are "
-        "compared as source facts; Go glue of pkg/cluster is tied by correspondence, the two Lua scripts are regenerated",
+        "cmd/syncer.go: clusterTicker is executed for real (scripted Election, virtual time) and runCluster up to its first campaign; the rest "
+        "of runCluster (start/stop of the syncer around the ticker, Resign after sy.Stop/WgWait) is tied by source facts only (statement order "
+        "+ whole-function fingerprints); a Resign that is skipped or late only delays takeover by <= ttl (takeover_possible)",
+        "'holder' is a ghost notion on the STORE's clock (told leader + within ttl of the last success, holder_until_deadline). What the "
+        "instance does is: keep RunLeader going until an answer says otherwise (ticker_failed_renewal_stops_leader). NOT covered: an instance "
+        "whose renewal call never returns keeps leading past its lease - redisElection.Campaign ignores its context (client.Do has no deadline; "
+        "measured every run: stat renew_ignores_ctx_deadline), so clusterRenew's WithTimeout(LeaseRenewInterval) has no effect; nor clock "
+        "drift between instance and store. The property text speaks of being TOLD leader while the lease is unexpired, which this does not "
+        "contradict",
+        "lease store reached through client.NewRedis(Input.Redis) as a standalone connection; a cluster-type input (EVAL routed by key, MOVED, "
+        "re-issue on another node) is not exercised",
         "the registry keys of redisCluster.Register live under a different prefix and are not modelled",
         "ttl >= 1 s (theorem hypothesis; lease_bounds proves ttl >= 3 for every output of ClusterConfig.fix)",
     ],
@@ -83,7 +117,9 @@ MANIFEST = {
             "lost-call events by any number of instances on any number of keys, from any initial store, at most one instance per key was "
             "told 'leader' with its lease unexpired (invariant + induction over the event list); success only for the holder or a free key; "
             "failed renewal = ErrNotLeader and loss of holder status; resign deletes only one's own lease; an instance that stops calling "
-            "is no holder once ttl has passed; ClusterConfig.fix yields 3s<=lease<=600s, 1s<=renew<=lease/3, ttl in [3,600]. The Go glue "
+            "is holder exactly until ttl has passed, then any other contender can take over; a leader whose renewal fails closes its syncer at "
+            "that tick (clusterTicker model, executed for real under virtual time); in cluster mode the election id is an address written in the "
+            "configuration (default-identity defect found and fixed: 6c9227b); ClusterConfig.fix yields 3s<=lease<=600s, 1s<=renew<=lease/3, ttl in [3,600]. The Go glue "
             "(Campaign/Renew/Resign/Leader through the real RESP client) and fix are tied by differential correspondence against a "
             "lease-store double; independent monitors check the property on the real code's answers.",
     "note": "trusted: Lean kernel (propext, Classical.choice, Quot.sound only), Redis/Lua semantics of the subset as transcribed, script "
